@@ -225,6 +225,11 @@ theorem C15_complete_prefiltered (c : Cfg) (as bs : List Row)
       intro b' hb'
       exact (mem_filter.mp (mem_groupRows.mp (mem_of_find?_eq_some hb')).1).2
 
+/-- on the witness of `C15_complete_fails` the pre-filtered input does yield the pair `a@1 → b@3` -/
+example : (matchSequences wCfg none (prefilterA wCfg wA) (prefilterB wCfg wB)
+    (keysOf wCfg (prefilterA wCfg wA) (prefilterB wCfg wB))).map (fun p => (p.1.idx, p.2.idx)) = [(0, 1)] := by
+  decide
+
 /-- What the PRECEDED BY sweep computes when the earliest b of the a-row's link value is earlier
 than its earliest a: the a-row is returned iff it passes its side and its *latest* earlier
 partner exists and passes the b side. -/
